@@ -409,3 +409,13 @@ Definition cfgs := [mkcfg true true true; mkcfg false true true; mkcfg true fals
 Fixpoint first_ok (c : ccase) (l : list cfg) (i : nat) : nat :=
   match l with [] => i | cf :: r => if check_case cf c then i else first_ok c r (S i) end.
 Definition attribute (c : ccase) : nat := first_ok c cfgs 0.
+
+(* ---------------------------------------------------------------- metadata specs as objects
+   (sc3/synth/spec.py ControlSpec.__init__: self._default = minval if default is None else default;
+   no clamping, whatever the order of minval/maxval, the warp or the step).  _apply_metadata_specs
+   reads specs[name].default, so the layout model is given [specs_of] of the declared specs. *)
+Record cspec := { cs_min : Q; cs_max : Q; cs_default : option Q }.
+Definition cspec_default (s : cspec) : Q :=
+  match cs_default s with Some d => d | None => cs_min s end.
+Definition specs_of (l : list (string * cspec)) : list (string * Q) :=
+  map (fun kv => (fst kv, cspec_default (snd kv))) l.
